@@ -141,14 +141,17 @@ class FilesystemIsolation(ContextDecorator):
             res = original_func(*args, **kwargs)
 
             try:
+                # Forget the source first and only if it is gone, e.g., renaming a path
+                # onto itself must not drop it from the bookkeeping.
+                if forget_path and not os.path.lexists(self._abspath(forget_path)):  # noqa: PTH110
+                    self._forget(forget_path)
+            except Exception:  # noqa: BLE001
+                _LOGGER.warning("Failed to forget path: %s", forget_path)
+
+            try:
                 self._record_created(*new_paths)
             except Exception:  # noqa: BLE001
                 _LOGGER.warning("Failed to update bookkeeping for %s", original_func)
-
-            try:
-                self._forget(forget_path)
-            except Exception:  # noqa: BLE001
-                _LOGGER.warning("Failed to forget path: %s", forget_path)
 
             return res
 
